@@ -202,19 +202,24 @@ fn snippet(rng: &mut Rng, focus: &str, m: &Mix, out: &mut Vec<Op>) {
     let l = |i: u16| RootRef { g: false, i };
     let gl = |i: u16| RootRef { g: true, i };
     match focus {
-        // dense survivors: every line of a block keeps a live object next to dead ones
+        // dense survivors: every line of a block keeps a live object next to dead ones, so whole
+        // blocks stay fully marked (not reusable) while holding dead objects
         "C07" | "C08" | "C31" | "C34" if (focus != "C34" || rng.chance(1, 3)) && (focus != "C31" || rng.chance(2, 3)) => {
-            let n = rng.range(200, 700) as u16;
-            let keep_every = rng.range(2, 4) as u16;
-            let holder = gl(rng.below(NG) as u16);
-            out.push(Op::Alloc { size: 64 + 8 * 64, align: 8, offset: 0, sem: SEM_DEFAULT, nrefs: 64, kind: 0, root: holder });
+            let n = rng.range(500, 900) as u16;
+            let nh = 5u16;
+            for h in 0..nh {
+                out.push(Op::Alloc { size: 64 + 8 * 64, align: 8, offset: 0, sem: SEM_DEFAULT, nrefs: 64, kind: 0, root: gl(20 + h) });
+            }
+            let mut kept = 0u16;
             for j in 0..n {
-                out.push(Op::Alloc { size: *rng.pick(&[40usize, 48, 64, 96]), align: 8, offset: 0, sem: SEM_DEFAULT, nrefs: 1, kind: 0, root: l(15) });
-                if j % keep_every == 0 {
-                    // (the holder has 64 slots: later survivors replace earlier ones, which die)
+                out.push(Op::Alloc { size: *rng.pick(&[96usize, 112, 128]), align: 8, offset: 0, sem: SEM_DEFAULT, nrefs: 1, kind: 0, root: l(15) });
+                if j % 2 == 0 && kept < nh * 32 {
+                    // (two adjacent slots per survivor: fields are partitioned between mutators)
+                    let holder = gl(20 + kept / 32);
                     for f in 0..2u16 {
-                        out.push(Op::Write { src: holder, field: (j / keep_every * 2 + f) % 64, val: Some(l(15)), mode: 1 });
+                        out.push(Op::Write { src: holder, field: (kept % 32) * 2 + f, val: Some(l(15)), mode: 1 });
                     }
+                    kept += 1;
                 }
             }
             out.push(Op::Drop { root: l(15) });
@@ -227,6 +232,23 @@ fn snippet(rng: &mut Rng, focus: &str, m: &Mix, out: &mut Vec<Op>) {
             if rng.chance(1, 3) {
                 out.push(Op::Alloc { size: rng.range(5 << 20, 9 << 20) as usize, align: 8, offset: 0, sem: SEM_LOS, nrefs: 2, kind: 0, root: l(7) });
                 out.push(Op::Drop { root: l(7) });
+                out.push(Op::Gc { force: true, exhaustive: true });
+            }
+            // sometimes more than two chunks' worth of medium objects in the default space, kept
+            // alive as a chain, so that space owns three or more regions
+            if focus == "C29" && rng.chance(1, 6) {
+                let len = rng.range(1100, 1700);
+                out.push(Op::Alloc { size: 8000, align: 8, offset: 0, sem: SEM_DEFAULT, nrefs: 2, kind: 0, root: l(6) });
+                for _ in 0..len {
+                    out.push(Op::Alloc { size: 8000, align: 8, offset: 0, sem: SEM_DEFAULT, nrefs: 2, kind: 0, root: l(5) });
+                    for f in 0..2u16 {
+                        out.push(Op::Write { src: l(5), field: f, val: Some(l(6)), mode: 1 });
+                    }
+                    out.push(Op::Move { from: l(5), to: l(6) });
+                }
+                out.push(Op::Gc { force: true, exhaustive: true });
+                out.push(Op::Drop { root: l(6) });
+                out.push(Op::Drop { root: l(5) });
                 out.push(Op::Gc { force: true, exhaustive: true });
             }
             let n = rng.range(4, 12) as u16;
@@ -352,6 +374,26 @@ fn snippet(rng: &mut Rng, focus: &str, m: &Mix, out: &mut Vec<Op>) {
                 }
                 out.push(Op::Gc { force: true, exhaustive: false });
                 out.push(Op::Load { src: gl(16 + c), field: rng.below(4) as u16, dst: l(14) });
+            }
+        }
+        // pin bits of neighbours: small objects allocated back to back, pinned and unpinned by
+        // every mutator that runs this
+        "C18" | "C04" if rng.chance(1, 3) => {
+            if rng.chance(1, 2) {
+                for i in 0..6u16 {
+                    out.push(Op::Alloc { size: 40, align: 8, offset: 0, sem: SEM_DEFAULT, nrefs: 1, kind: 0, root: gl(i) });
+                }
+            }
+            for _ in 0..rng.range(6, 30) {
+                let t = gl(rng.below(6) as u16);
+                if rng.chance(3, 5) {
+                    out.push(Op::Pin { root: t });
+                } else {
+                    out.push(Op::Unpin { root: t });
+                }
+            }
+            if rng.chance(1, 2) {
+                out.push(Op::Gc { force: true, exhaustive: rng.chance(1, 2) });
             }
         }
         // heavy fan-in: many slots refer to one object
@@ -481,6 +523,7 @@ pub fn profile(focus: &str) -> Profile {
             shape = "allocation arguments with boundary bias";
         }
         "C04" => {
+            snippet_pct = 6;
             m.special_sem_pct = 45;
             m.pin = 8;
             m.drop = 14;
